@@ -26,7 +26,7 @@ import tiers as T
 import tgops
 from praatio import audio, praatio_scripts, textgrid
 
-RULE = ("recordings: widths {1,2,4} x rates {8, 10, 100, 8000, 44100} x 0..400 samples (random / ramps / constant with the "
+RULE = ("recordings: widths {1,2,4} x rates {8, 10, 100, 8000, 44100, 48000, 22050, 7, 3} x 0..400 samples (random / ramps / constant with the "
         "extremes of the width mixed in). interval lists: 0..6 sorted disjoint intervals (10 % shuffled) whose boundaries are "
         "sample positions k/rate, off-grid (k+0.25/0.3/0.49/0.51/0.7)/rate or exact half-sample points, touching or separated, "
         "starting at 0 and/or ending at the duration, one interval covering everything, the empty list and None; x {keep, delete} "
@@ -57,7 +57,7 @@ ASSUMPTIONS = ["mono recordings, sample widths 1, 2, 4, frame rate a positive in
                "integer (numToStr; C02/C04); such cases are oracle-only"]
 
 WIDTHS = [1, 2, 4]
-RATES = [8, 10, 100, 8000, 44100]
+RATES = [8, 10, 100, 8000, 44100, 48000, 22050, 7, 3]
 HALF = Fraction(1, 2)
 TOL = Fraction(1, 2 ** 30)   # far above any binary64 rounding error of positions < 2^10, far below a sample
 
